@@ -252,6 +252,34 @@ func prop(c Case) error {
 		if err := checkPolygon(b); err != nil {
 			return err
 		}
+		// the box returned belongs to the caller: extending it in place (an accumulator
+		// started from the first geometry's bounds) changes no later answer, neither for
+		// this geometry nor for a new geometry without coordinates of the same layout
+		if !g.IsCollection() || g.ReportedLayout() != geom.NoLayout {
+			far := make([]float64, b.Layout().Stride())
+			for i := range far {
+				far[i] = float64(1000 + i)
+			}
+			if b.Layout() != geom.NoLayout {
+				b.Extend(geom.NewPointFlat(b.Layout(), far))
+				for i := range far {
+					far[i] = -far[i]
+				}
+				b.Extend(geom.NewPointFlat(b.Layout(), far))
+			}
+			if err := checkBounds(g.Kind+".Bounds() after the box returned earlier was extended by its caller", t.Bounds(), g.ReportedLayout(), r); err != nil {
+				return err
+			}
+			if !g.IsCollection() {
+				fresh := geom.NewLineString(g.Lay())
+				if fb := fresh.Bounds(); !fb.IsEmpty() {
+					return fmt.Errorf("a new LineString without coordinates has non-empty bounds %v after a box returned by %s.Bounds() was extended by its caller", fb, g.Kind)
+				}
+				if fb := geom.NewPointEmpty(g.Lay()).Bounds(); !fb.IsEmpty() {
+					return fmt.Errorf("an empty Point has non-empty bounds %v after a box returned by %s.Bounds() was extended by its caller", fb, g.Kind)
+				}
+			}
+		}
 		// the bounds are those of the coordinates as they are now: every ordinate is
 		// rewritten in place (x -> -x-1 swaps the roles of minimum and maximum) and the
 		// bounds asked for again, on the same object
